@@ -50,3 +50,6 @@ Print Assumptions C04_keygen_rng_failure.
 (* T2: lib.rs overrides no provided trait method: try_keygen is the _with_rng variant applied to OsRng *)
 Require F204.Proofs.SourcePins.
 Check F204.Proofs.SourcePins.lib_impl_methods_pinned.
+(* T2: the XOF plumbing and the samplers of hashing.rs have the structure the model mirrors *)
+Require F204.Proofs.SourcePins.
+Check F204.Proofs.SourcePins.hashing_skeleton_pinned.
